@@ -986,7 +986,7 @@ pub fn run(args: &Args) {
     sink.note("corpus_cases", lines.len());
     if !only { lines.extend(generate(args)); }
     for l in &lines {
-        begin_case(l);
+        begin_case_logged(l, &args.out, "async");
         let (obs, verdict, nt) = exec(l);
         sink.count(&format!("op:{}", l.split(' ').nth(1).unwrap_or("?")));
         if l.contains(",d") || l.contains(" d") || l.contains(",x") || l.contains(" x") { sink.count("with-disposal"); }
